@@ -26,11 +26,20 @@ Fixpoint slclose (xs : list score) (vs : list (option R)) (tol : R) : Prop :=
   | _, _ => False
   end.
 
+(* innermost guards first, so that every decision is about literals and lra prunes the dead branch *)
+Ltac no_guard t :=
+  lazymatch t with
+  | context [Rle_dec _ _] => fail
+  | context [Rlt_dec _ _] => fail
+  | _ => idtac
+  end.
 Ltac decide_guards :=
   repeat match goal with
          | |- context [Rle_dec ?a ?b] =>
+           no_guard a; no_guard b;
            destruct (Rle_dec a b); [try (exfalso; lra) | try (exfalso; lra)]
          | |- context [Rlt_dec ?a ?b] =>
+           no_guard a; no_guard b;
            destruct (Rlt_dec a b); [try (exfalso; lra) | try (exfalso; lra)]
          end.
 
